@@ -112,6 +112,39 @@ def _sock():
         ac.set(ex, s, 'reads', ac.get(ex, s, 'reads') + 1)
         return VBytes(c)
 
+    def recv_into(ex, a, k):
+        """sock.recv_into(buffer[, nbytes]): like recv, but the bytes are written at the start of the given writable buffer (a bytearray or a
+        memoryview slice of one) and their number is returned; at most len(buffer) (and nbytes, if given and non-zero) bytes"""
+        I = ex.interp
+        s, target = a[0], a[1]
+        ac = ex.abs_classes['Socket']
+        if isinstance(target, VRef) and isinstance(ex.heap[target.addr], HBuf):
+            target = VView(target.addr, z3.IntVal(0), z3.Length(ex.heap[target.addr].seq))
+        if not isinstance(target, VView):
+            raise Undecided(f'recv_into({target!r})')
+        cap = target.hi - target.lo
+        if len(a) > 2 and a[2] is not NONE:
+            nb = I.as_int(a[2], None, 'recv_into nbytes')
+            cap = z3.If(z3.And(nb > 0, nb < cap), nb, cap)
+        errs = ex.ghost.get('sock_errors', ['ConnectionResetError'])
+        if errs:
+            d = ex.choose(1 + len(errs), 'recv:outcome')
+            if d > 0:
+                ac.set(ex, s, 'err', z3.BoolVal(True))
+                ex.note(f'recv_into:raises({errs[d - 1]})')
+                raise_(errs[d - 1])
+        unread = ac.get(ex, s, 'unread')
+        c = ex.fresh('chunk', Bytes)
+        rest = ex.fresh('rest', Bytes)
+        ex.assume(unread == z3.Concat(c, rest))
+        ex.assume(z3.Length(c) <= cap)
+        ex.assume((z3.Length(c) == 0) == z3.Or(cap <= 0, z3.Length(unread) == 0))
+        ac.set(ex, s, 'consumed', z3.Concat(ac.get(ex, s, 'consumed'), c))
+        ac.set(ex, s, 'unread', rest)
+        ac.set(ex, s, 'reads', ac.get(ex, s, 'reads') + 1)
+        I.buf_write(target.addr, target.lo, c)
+        return VInt(z3.Length(c))
+
     def sendall(ex, a, k):
         s, b = a[0], a[1]
         ac = ex.abs_classes['Socket']
@@ -129,7 +162,7 @@ def _sock():
 
     return AbsClass('Socket',
                     fields={'consumed': Bytes, 'unread': Bytes, 'sent': Bytes, 'err': smt.Bool, 'reads': smt.Int},
-                    methods={'recv': recv, 'sendall': sendall, 'setsockopt': noop},
+                    methods={'recv': recv, 'recv_into': recv_into, 'sendall': sendall, 'setsockopt': noop},
                     text='T2 socket.recv(n): returns a prefix c of the unread stream with len(c) <= n, empty iff n <= 0 or the '
                          'stream has ended; may raise ConnectionResetError/OSError; sendall(b) appends b to what the peer will '
                          'read or raises BrokenPipeError/OSError')
